@@ -108,6 +108,22 @@ def check_object(drv, rng, r, stats):
     return fails
 
 
+def order_preserving(r, e):
+    """is the edit (feature, 'group', discarded, kept) a merge of two groups that are neighbours in the fitted order? (always
+    true for a categorical feature, whose order is not claimed after manual edits)"""
+    obj, ds = r["obj"], r["ds"]
+    f = e[0]
+    raw = next(rw for rw, cs in obj.features_casting.items() if f in cs)
+    ordered = f in obj.quantitative_features or (isinstance(ds, dict) and raw in ds.get("ordinal", [])) or \
+        f in getattr(obj, "ordinal_features", [])
+    if not ordered:
+        return True
+    leaders = [l for l in list(obj.values_orders[f]) if l != obj.str_nan]
+    if e[2] not in leaders or e[3] not in leaders:
+        return False
+    return abs(leaders.index(e[2]) - leaders.index(e[3])) == 1
+
+
 def check_rate_order(drv, r, stats):
     """categorical features: leaders of a Discretizer are in exact training target-rate order, and the carver's groups are runs of it"""
     fails = []
@@ -168,6 +184,31 @@ def worker(args):
             if r["meta"]["what"] == "carver" and r["meta"]["target"] != "multiclass":
                 fs += check_rate_order(drv, r, stats)
                 fs += c01.check_case(drv, r, stats)      # the carver's groups are runs of the base order (cut) and optimal
+            if rng.random() < 0.3:
+                # order-preserving manual edits (adjacent groups merged in either direction, missing values moved into a group,
+                # a qualitative group renamed): every fitted group must still be a run of the order, transform still monotone
+                from . import c17
+                edits = []
+                for _ in range(rng.randint(1, 2)):
+                    e = c17.gen_edit(rng, r["obj"])
+                    if e is None:
+                        continue
+                    if e[1] == "group" and e[2] == e[2] and not order_preserving(r, e):
+                        continue        # merging two non-adjacent groups of an ordered feature is the user's own break of the order
+                    try:
+                        with warnings.catch_warnings():
+                            warnings.simplefilter("ignore")
+                            r["obj"].update_discretizer(*e)
+                        edits.append([e[0], e[1], c17.arg_wire(e[2]), c17.arg_wire(e[3])])
+                    except Exception:
+                        break
+                if edits:
+                    stats["edited"] = stats.get("edited", 0) + 1
+                    fs2 = check_object(drv, rng, r, stats)
+                    for f in fs2:
+                        f["what"] += " (after update_discretizer edits)"
+                        f["edits"] = edits
+                    fs += fs2
             for f in fs:
                 f["case"] = c04.describe(r)
             fails += fs
